@@ -187,6 +187,26 @@ def job_recursive(ctx, key, ci):
                     ctx.fail(f'{key}: raises', k, f'{type(ex).__name__}: {ex}'[:120], 'valid attitudes')
             ctx.seen((key, ci, i, j, sa, sm))
             ctx.cls('recursive')
+    # the sample-by-sample entry point on a data-less instance (the documented streaming use), level start, all 36 two-pose words
+    if r.step_fn is not None:
+        for w in itertools.product(range(6), repeat=2):
+            kk = f'filter={key} cfg#{ci} stream poses={w[0]}{w[1]}'
+            ctx.evals += 1
+            try:
+                np.random.seed(1)
+                inst = r.fresh(cfg)
+                q = np.array([1.0, 0.0, 0.0, 0.0])
+                rows = []
+                for pz in w:
+                    q = r.step(inst, q, GYR[0], P6[pz][0] * 9.81, P6[pz][1] * 45.0 if r.has_mag else None)
+                    rows.append(np.array(q, float))
+                    ctx.transitions += 1
+                ok, why = _valid_rows(np.array(rows), 'q', 2)
+                if not ok:
+                    ctx.fail(f'{key}: streaming update returns one valid attitude per sample', kk, why, 'finite real unit rows')
+            except Exception as ex:
+                ctx.fail(f'{key}: streaming update raises', kk, f'{type(ex).__name__}: {ex}'[:120], 'valid attitudes')
+            ctx.cls('streaming')
     for w in itertools.product(range(6), repeat=3):
         for gi, gv in enumerate(GYR):
             acc = np.array([P6[k][0] for k in w]) * 9.81; mag = np.array([P6[k][1] for k in w]) * 45.0
